@@ -420,6 +420,10 @@ def run(ctx) -> None:
     from .c01 import r3_rows
     with ctx.as_rule(C01_R3="C06.R6"):
         r3_rows(ctx)
+    ctx.rule("C06.R7", "the serialized position of the state-order port follows each operation's own signature (Call alone uses its instantiation; "
+             "static-input owners exactly Call / LoadConst / LoadFunc) -- shared with C03.R5", floor=4)
+    from .c03 import r5_order_offset
+    r5_order_offset(ctx, rule="C06.R7")
     from .. import lints
     lints.arm(ctx)
 
